@@ -27,7 +27,8 @@ NOT_DECIDED = ("text fidelity of names, descriptions, tags, cells and doc-string
 
 
 def t_entry(chk, ix, entry):
-    rules_parser.check_machine(chk, ix, entry, ("P2",), tier=chk.tier)
+    # E1 (shared with C05): no internal exception from a parse entry point - an entry point that dies on legal text parses nothing
+    rules_parser.check_machine(chk, ix, entry, ("P2", "E1"), tier=chk.tier)
 
 
 def t_alive(chk, ix):
